@@ -955,10 +955,59 @@ func (c *Ctx) checkHashable(r *Report) {
 					}
 				}
 			}
+			if !okFail {
+				okFail = c.onlyFalseWhen(fn, call)
+			}
 			if okFail {
 				covered[path] = true
 			}
 		}
+		// a helper that is handed (a slice of) a component array and answers whether all its elements are hashable
+		eachInstr(fn, func(in2 ssa.Instruction) {
+			hc, ok := in2.(*ssa.Call)
+			if !ok || hc.Common().IsInvoke() {
+				return
+			}
+			callee := hc.Common().StaticCallee()
+			if callee == nil || !isModuleSSA(callee) || callee.Object() == types.Object(hashable) || len(callee.Params) != 1 || len(hc.Common().Args) != 1 {
+				return
+			}
+			// the argument: a slice of field f of the asserted struct value
+			var fieldName string
+			if sl, ok := hc.Common().Args[0].(*ssa.Slice); ok {
+				if fa, ok := sl.X.(*ssa.FieldAddr); ok {
+					if n := namedStruct(fa.X.Type()); n != nil && types.Identical(n.Underlying(), st) {
+						fieldName = st.Field(fa.Field).Name()
+					}
+				}
+			}
+			if fieldName == "" {
+				return
+			}
+			// the helper: every Hashable call is on an element of its parameter and its failure leads to `false` only
+			good, nCalls := true, 0
+			for _, ci := range callsIn(callee, hashable) {
+				ic, ok := ci.(*ssa.Call)
+				if !ok {
+					continue
+				}
+				nCalls++
+				ld, ok := ic.Common().Args[0].(*ssa.UnOp)
+				ia, ok2 := (ssa.Value)(nil), false
+				if ok {
+					if x, isIA := ld.X.(*ssa.IndexAddr); isIA && x.X == ssa.Value(callee.Params[0]) {
+						ia, ok2 = x, true
+					}
+				}
+				_ = ia
+				if !ok2 || !c.onlyFalseWhen(callee, ic) {
+					good = false
+				}
+			}
+			if good && nCalls > 0 && c.onlyFalseWhen(fn, hc) {
+				covered[fieldName+"[]"] = true
+			}
+		})
 		for _, req := range required {
 			r.Check(covered[req], "C04.R4", fname, fmt.Sprintf("%s component %s checked recursively", typeShort(ta.AssertedType), req), c.Pos(ta.Pos()),
 				fmt.Sprintf("Hashable accepts a %s without checking component %s: an unhashable value (large array, function) inside it reaches the Go map key and panics with 'hash of unhashable type'", typeShort(ta.AssertedType), req))
@@ -1102,4 +1151,45 @@ func init() {
 		assume:  []string{"calls through function values inside callbacks are not followed for effects", "the purity exemption (constants, function values) is taken as designed: staleness through redefinition or upper-case captures is not covered"},
 		run:     runC04,
 	})
+}
+
+// onlyFalseWhen: with the result of call fixed to false, every return of fn that can still execute returns
+// the constant false (phis are resolved by the edge taken: `!(A && B)`, early returns in loops).
+func (c *Ctx) onlyFalseWhen(fn *ssa.Function, call *ssa.Call) bool {
+	reach := c.blocksReachableWith(fn, call, int64(0))
+	n := 0
+	for b := range reach {
+		ret, ok := b.Instrs[len(b.Instrs)-1].(*ssa.Return)
+		if !ok || len(ret.Results) != 1 {
+			continue
+		}
+		// returns in the call's own block before the call do not count (there are none: a return ends a block)
+		n++
+		if k, ok := ret.Results[0].(*ssa.Const); ok && k.Value != nil && k.Value.ExactString() == "false" {
+			continue
+		}
+		// `return helper(...)` / `return call` itself: the fixed value is returned
+		if ret.Results[0] == ssa.Value(call) {
+			continue
+		}
+		// a value that evaluates to false under the assumption
+		if v, ok := c.evalAny(ret.Results[0], call, int64(0), 0); ok {
+			if i, isI := v.(int64); isI && i == 0 {
+				continue
+			}
+		}
+		if phi, ok := ret.Results[0].(*ssa.Phi); ok {
+			allFalse := true
+			for _, e := range phi.Edges {
+				if v, ok := c.evalAny(e, call, int64(0), 0); !ok || v != any(int64(0)) {
+					allFalse = false
+				}
+			}
+			if allFalse {
+				continue
+			}
+		}
+		return false
+	}
+	return n > 0
 }
